@@ -245,7 +245,7 @@ def path_data(draw, box, closed_bias=True, wild=False):
 
 @st.composite
 def shape(draw, cfg: Cfg, box: Box, kinds=None):
-    kinds = kinds or (["rect", "rect", "circle", "ellipse", "polygon", "polyline", "path", "path", "ring", "star"] + (["line"] if cfg.lines else []))
+    kinds = kinds or (["rect", "rect", "circle", "ellipse", "polygon", "polyline", "path", "path", "ring", "star"] * 3 + ["tiny-coord"] + (["line"] * 3 if cfg.lines else []))
     k = draw(st.sampled_from(kinds))
     if k == "rect":
         a = {"x": fmt(_px(draw, box)), "y": fmt(_py(draw, box)), "width": fmt(_size(draw, box)), "height": fmt(_size(draw, box))}
@@ -263,6 +263,12 @@ def shape(draw, cfg: Cfg, box: Box, kinds=None):
         return node("ellipse", {"cx": fmt(_px(draw, box)), "cy": fmt(_py(draw, box)), "rx": fmt(_size(draw, box, 5, 40)), "ry": fmt(_size(draw, box, 5, 40))})
     if k == "line":
         return node("line", {"x1": fmt(_px(draw, box)), "y1": fmt(_py(draw, box)), "x2": fmt(_px(draw, box)), "y2": fmt(_py(draw, box))})
+    if k == "tiny-coord":
+        # all integers except one coordinate below 1e-4 (printed by Python in exponent form, without a dot)
+        x, y = round(_px(draw, box)), round(_py(draw, box))
+        w, h = max(2, round(_size(draw, box, 10, 50))), max(2, round(_size(draw, box, 10, 50)))
+        t = draw(st.sampled_from(["0.00005", "0.00002", "5e-05", "0.00007"]))
+        return node("path", {"d": f"M{x},{y} L{x + w},{t} L{x + w},{y + h} L{x},{y + h} Z"})
     if k == "ring":
         # two nested contours; same direction -> nonzero fills the hole, evenodd does not
         x, y, w, h = _px(draw, box), _py(draw, box), _size(draw, box, 20, 60), _size(draw, box, 20, 60)
@@ -401,6 +407,11 @@ def _gen_nested_svg(draw, cx, depth, hook):
     inner = box
     if draw(st.integers(0, 3)):
         vb = draw(viewbox())
+        if w is not None and h is not None and draw(st.integers(0, 5)) == 0:
+            # boundary: viewBox of the same size as the viewport, same or different origin
+            same_origin = draw(st.booleans())
+            vb = Box(x if (same_origin and x is not None) else round(box.x + 0.1 * box.w, 2), y if (same_origin and y is not None) else box.y, w, h)
+            cx.feat.add("nested-viewbox-same-size")
         a["viewBox"] = f"{fmt(vb.x)} {fmt(vb.y)} {fmt(vb.w)} {fmt(vb.h)}"
         inner = vb
         par = draw(st.sampled_from([None, None, "none", "xMinYMin", "xMidYMin", "xMaxYMin", "xMinYMid", "xMidYMid", "xMaxYMid", "xMinYMax", "xMidYMax", "xMaxYMax"]))
@@ -427,11 +438,22 @@ def _gen_nested_svg(draw, cx, depth, hook):
 
 def _gen_group(draw, cx, depth, hook):
     g = node("g")
-    _maybe_transform(draw, cx, g, p=1)
+    micro = cx.cfg.transforms and not cx.cfg.stroke and depth <= 2 and not getattr(cx, "in_micro", False) and draw(st.integers(0, 24)) == 0  # no strokes: a dash pattern in normal units over a path in huge units means millions of dashes
+    saved_box = cx.box
+    if micro:
+        # artwork in huge units scaled down hard (invertible, |det| ~ 1e-9 and below)
+        k = draw(st.sampled_from([0.00002, 0.00001, 0.000004]))
+        g["a"]["transform"] = f"scale({k:.6f})".replace("0.000020", "0.00002").replace("0.000010", "0.00001").replace("0.000004", "0.000004")
+        cx.box = Box(round(cx.box.x / k), round(cx.box.y / k), round(cx.box.w / k), round(cx.box.h / k))
+        cx.feat.add("micro-scale")
+        cx.feat.add("transform")
+        cx.in_micro = True  # never nested: picosvg treats |det| <= float epsilon as degenerate by definition
+    else:
+        _maybe_transform(draw, cx, g, p=1)
     _maybe_display(draw, cx, g)
     _maybe_clip(draw, cx, g, p=3)
     if cx.cfg.opacity and draw(st.integers(0, 1)) == 0:
-        v = draw(st.sampled_from(["0.5", "0.25", "0.8", "1", "0", ".6"]))
+        v = draw(st.sampled_from(["0.5", "0.25", "0.8", "1", "0", ".6", "0.5", "1.5", "-0.25", "2"]))
         if draw(st.booleans()):
             g["a"]["opacity"] = v
         else:
@@ -444,11 +466,14 @@ def _gen_group(draw, cx, depth, hook):
         if cx.nleaves >= cx.cfg.max_leaves:
             break
         g["c"].append(_gen_content(draw, cx, depth + 1, hook))
-    if draw(st.integers(0, 4)) == 0:
+    if draw(st.integers(0, 4)) == 0 and not (getattr(cx, "in_micro", False) and not micro):
         gid = cx.new_id("g")
         g["a"]["id"] = gid
         g["_id_after"] = gid
     cx.feat.add(f"group-depth{min(depth, 4)}")
+    cx.box = saved_box
+    if micro:
+        cx.in_micro = False
     return g
 
 
@@ -464,7 +489,9 @@ def _gen_content(draw, cx, depth, hook, allow_nested=True):
     k = draw(st.sampled_from(choices))
     if k == "leaf":
         n = _gen_leaf(draw, cx, hook)
-        if draw(st.integers(0, 3)) == 0:
+        # content in huge units (inside a micro-scale group) is not made reusable: instanced outside the group
+        # it would sit at coordinates ~1e7 where the engine's float32 grid is coarser than epsilon
+        if draw(st.integers(0, 3)) == 0 and not getattr(cx, "in_micro", False):
             n["a"]["id"] = cx.new_id("s")
             cx.ids.append(n["a"]["id"])
         return n
@@ -634,7 +661,7 @@ def _strip(n):
 
 # ------------------------------------------------------------------ cascade hook (C05)
 
-_OPAC = ["0.5", "0.25", ".8", "1", "0", "0.6"]
+_OPAC = ["0.5", "0.25", ".8", "1", "0", "0.6", "1.5", "-0.25"]  # values outside [0,1] are clamped by SVG
 
 
 def _put(draw, n, prop, values, both_p=4):
@@ -719,9 +746,16 @@ def _stroke_props(draw, cx, allow_dash=True):
     if allow_dash and draw(st.integers(0, 2)) == 0:
         n = draw(st.sampled_from([1, 2, 2, 3, 4]))
         vals = [fmt(round(draw(st.sampled_from([0.04, 0.08, 0.15, 0.3])) * ext, 1)) for _ in range(n)]
+        if draw(st.integers(0, 4)) == 0:
+            # dotted-line idiom: zero-length dashes (dots appear only with round/square caps) and wide gaps
+            vals = ["0", fmt(round(draw(st.sampled_from([0.3, 0.45])) * ext, 1))] + (vals[:2] if draw(st.booleans()) and len(vals) >= 2 else [])
+            cx.feat.add("dash-with-zero-entry")
         props["stroke-dasharray"] = draw(st.sampled_from([" ", ",", ", "])).join(vals)
         if draw(st.booleans()):
             props["stroke-dashoffset"] = fmt(round(draw(st.sampled_from([-0.3, -0.05, 0.07, 0.2, 0.9, 2.5])) * ext, 1))
+    elif allow_dash and draw(st.integers(0, 5)) == 0:
+        props["stroke-dasharray"] = "none"  # explicit reset of an inherited dash pattern
+        cx.feat.add("dasharray-none")
     if draw(st.integers(0, 3)) == 0:
         props["stroke-opacity"] = draw(st.sampled_from(["0.5", "0.25", "0.8"]))
     return props
@@ -731,10 +765,16 @@ def stroke_hook(draw, cx, n):
     """Stroke properties on shapes (own) or on groups/use (inherited by their content)."""
     tag = n["tag"]
     if tag == "g" or tag == "use":
-        if draw(st.integers(0, 2)) == 0:
+        r = draw(st.integers(0, 5))
+        if r <= 1:
             for k, v in _stroke_props(draw, cx).items():
                 (n["a"] if draw(st.integers(0, 2)) else n["s"])[k] = v
             cx.feat.add("stroke-inherited")
+        elif r == 2:
+            # an intermediate level that only resets single inherited stroke properties to their initial value
+            for k, v in draw(st.sampled_from([{"stroke-dasharray": "none"}, {"stroke-dasharray": "none", "stroke-linecap": "butt"}, {"stroke-dashoffset": "0"}, {"stroke-opacity": "1"}])).items():
+                (n["a"] if draw(st.booleans()) else n["s"])[k] = v
+            cx.feat.add("stroke-reset-level")
         return
     if draw(st.integers(0, 3)) == 0:
         return  # unstroked (or inherits)
